@@ -48,9 +48,10 @@ def chain_text(rec):
 
 
 # -- R15.6: which attributes of self flow into the value returned by a method (intra-procedural backward slice) ---------------
-def returned_self_attrs(it, cname, fn, depth=0):
-    """(attributes of self that flow into the value the method returns, opaque?)  following locals and other methods of self;
-    opaque: self is handed to something that is not followed, so more attributes may be shown than were found"""
+def returned_self_attrs(it, cname, fn, depth=0, selfname=None):
+    """(attributes of self that flow into the value the method returns, opaque?)  following locals, other methods of self and
+    module-level functions self is handed to; opaque: self is handed to something that is not followed, so more attributes may
+    be shown than were found"""
     defs = {}
     for n in walk_no_nested(fn):
         if isinstance(n, ast.Assign):
@@ -64,7 +65,8 @@ def returned_self_attrs(it, cname, fn, depth=0):
             for nm in ast.walk(n.target):
                 if isinstance(nm, ast.Name):
                     defs.setdefault(nm.id, []).append(n.iter)
-    selfname = fn.args.args[0].arg if fn.args.args else None
+    if selfname is None:
+        selfname = fn.args.args[0].arg if fn.args.args else None
     attrs, seen, todo = set(), set(), []
     opaque = False
     for n in walk_no_nested(fn):
@@ -82,9 +84,20 @@ def returned_self_attrs(it, cname, fn, depth=0):
                 else:
                     attrs.add(n.attr)
             elif isinstance(n, ast.Call):
-                for a in list(n.args) + [k.value for k in n.keywords]:
+                for i, a in enumerate(n.args):
                     if isinstance(a, ast.Name) and a.id == selfname:
-                        opaque = True        # format(self), vars(self), helper(self)
+                        callee = it.funcs.get(n.func.id) if isinstance(n.func, ast.Name) and n.func.id not in defs else None
+                        if isinstance(callee, ast.FunctionDef) and depth < 3 and i < len(callee.args.args) and not callee.decorator_list \
+                                and not any(isinstance(x, ast.Starred) for x in n.args):
+                            # helper(self): what the helper returns, in terms of the attributes of its parameter
+                            sub, op2 = returned_self_attrs(it, cname, callee, depth + 1, selfname=callee.args.args[i].arg)
+                            attrs |= sub
+                            opaque = opaque or op2
+                        else:
+                            opaque = True        # format(self), vars(self), a helper that is not followed
+                for k in n.keywords:
+                    if isinstance(k.value, ast.Name) and k.value.id == selfname:
+                        opaque = True
             elif isinstance(n, ast.Name) and n.id not in seen:
                 seen.add(n.id)
                 todo.extend(defs.get(n.id, []))
@@ -125,6 +138,133 @@ def init_param_fields(it, cname):
     return out, params
 
 
+def base_init_text(it, cname):
+    """no __str__ of its own: str(error) is the single argument handed to Exception.__init__.  -> (parameters of __init__
+    that flow into that argument) or None when the call is not of that shape"""
+    c, q = it.find_method(cname, '__init__')
+    if q is None:
+        return None
+    fn = it.funcs[q]
+    params = [a.arg for a in fn.args.args[1:]]
+    defs = {}
+    for n in walk_no_nested(fn):
+        if isinstance(n, ast.Assign):
+            for t in n.targets:
+                if isinstance(t, ast.Name):
+                    defs.setdefault(t.id, []).append(n.value)
+    calls = []
+    for n in walk_no_nested(fn):
+        if isinstance(n, ast.Call) and isinstance(n.func, ast.Attribute) and n.func.attr == '__init__':
+            recv = n.func.value
+            if isinstance(recv, ast.Call) and isinstance(recv.func, ast.Name) and recv.func.id == 'super':
+                calls.append(list(n.args))
+            elif isinstance(recv, ast.Name) and recv.id in ('Exception', 'BaseException'):
+                calls.append(list(n.args[1:]))
+    if len(calls) != 1 or len(calls[0]) != 1 or isinstance(calls[0][0], ast.Starred):
+        return None
+    res, seen, todo = set(), set(), [calls[0][0]]
+    while todo:
+        e = todo.pop()
+        for n in ast.walk(e):
+            if isinstance(n, ast.Name):
+                if n.id in params:
+                    res.add(n.id)
+                elif n.id not in seen:
+                    seen.add(n.id)
+                    todo.extend(defs.get(n.id, []))
+    return res
+
+
+def overwritten_after_construction(it, ev):
+    """the attribute gets its value right after the object is built: `e = C(..., None); e.line = line` or `C(..., None).at(line)`
+    where the method assigns the attribute unconditionally.  (The later store is checked like every other store.)"""
+    site, attr = ev['site'], ev['attr']
+    fn = it.funcs.get(ev['qual'])
+    if fn is None or not isinstance(site, ast.Call):
+        return False
+    for n in ast.walk(fn):
+        # C(...).method(...)
+        if isinstance(n, ast.Call) and isinstance(n.func, ast.Attribute) and n.func.value is site:
+            for cname in ev['cls']:
+                c, q = it.find_method(cname, n.func.attr)
+                m = it.funcs.get(q) if q else None
+                if m is None or not m.args.args or m.decorator_list:
+                    return False
+                me = m.args.args[0].arg
+                if not any(isinstance(st, ast.Assign) and any(isinstance(t, ast.Attribute) and isinstance(t.value, ast.Name) and t.value.id == me and t.attr == attr
+                                                              for t in st.targets) for st in m.body):
+                    return False
+            return True
+        # v = C(...); ...; v.attr = value
+        for field in ('body', 'orelse', 'finalbody'):
+            block = getattr(n, field, None)
+            if not isinstance(block, list):
+                continue
+            for i, st in enumerate(block):
+                if isinstance(st, ast.Assign) and st.value is site and len(st.targets) == 1 and isinstance(st.targets[0], ast.Name):
+                    v = st.targets[0].id
+                    for later in block[i + 1:]:
+                        if isinstance(later, ast.Assign) and len(later.targets) == 1 and isinstance(later.targets[0], ast.Attribute) \
+                                and isinstance(later.targets[0].value, ast.Name) and later.targets[0].value.id == v and later.targets[0].attr == attr \
+                                and not any(isinstance(x, ast.Name) and x.id == v for x in ast.walk(later.value)):
+                            return True
+                        if any(isinstance(x, ast.Name) and x.id == v for x in ast.walk(later)):
+                            return False
+                    return False
+    return False
+
+
+def revisits_processed_element(it, rec, chain):
+    """the call that lets this exception out is made on an element read back from a list this same function fills
+    (`prev = new_items[-1]; f(prev.rd)`), and the function converts the same fault of `f` in a handler of its own: whether the
+    element already went through that handler when it was appended is a loop-carried fact the interpretation does not have"""
+    if len(chain) < 2:
+        return None
+    caller_q, call = chain[-2]
+    fn = it.funcs.get(caller_q)
+    if fn is None or not isinstance(call, ast.Call):
+        return None
+    if not any(q == caller_q and r.origin is rec.origin for (q, h, r, how) in it.ev_handler.values()):
+        return None
+    assigned, appended = {}, set()
+    for n in walk_no_nested(fn):
+        if isinstance(n, ast.Assign):
+            for t in n.targets:
+                for nm in ast.walk(t):
+                    if isinstance(nm, ast.Name):
+                        assigned.setdefault(nm.id, []).append(n.value if t is nm else None)
+        elif isinstance(n, (ast.For, ast.comprehension)):
+            for nm in ast.walk(n.target):
+                if isinstance(nm, ast.Name):
+                    assigned.setdefault(nm.id, []).append(None)
+        elif isinstance(n, (ast.AugAssign, ast.AnnAssign, ast.NamedExpr)) and isinstance(n.target, ast.Name):
+            assigned.setdefault(n.target.id, []).append(None)
+        elif isinstance(n, ast.Call) and isinstance(n.func, ast.Attribute) and n.func.attr == 'append' and isinstance(n.func.value, ast.Name):
+            appended.add(n.func.value.id)
+    for a in list(call.args) + [k.value for k in call.keywords]:
+        root = a
+        while isinstance(root, ast.Attribute):
+            root = root.value
+        if root is a or not isinstance(root, ast.Name):
+            continue
+        srcs = assigned.get(root.id)
+        if not srcs or root.id in {p.arg for p in fn.args.args + fn.args.kwonlyargs}:
+            continue
+        if all(isinstance(v, ast.Subscript) and isinstance(v.value, ast.Name) and v.value.id in appended for v in srcs):
+            return '{}:{} `{}` is applied to an element read back from `{}`, which this function fills after converting the same fault: ' \
+                   'whether it can still raise there is not established'.format(caller_q, call.lineno, unparse(call)[:50], srcs[0].value.id)
+    return None
+
+
+def mentions_origin(atom, origins):
+    """does this (nested) abstract value contain text elements of one of these line lists"""
+    if isinstance(atom, tuple) and len(atom) >= 2 and atom[0] == 'elem' and atom[1] in origins:
+        return True
+    if isinstance(atom, (tuple, frozenset, list)):
+        return any(mentions_origin(x, origins) for x in atom)
+    return False
+
+
 def run(repo, tier):
     rep = Report('C15', LEVEL,
                  'Abstract interpretation of assemble() (compress False / True) over classes, callables (closures, partial bindings, '
@@ -137,7 +277,7 @@ def run(repo, tier):
     rep.assumptions = ['the integer returned by a mnemonic binding (a module-level partial / entry of the INSTRUCTIONS table) fits its instruction width: theorem of C01 / C02',
                        'the reader (raw prefix of the line) and the parser (first token) select the same `include_bytes` lines']
     rep.trusted_base = ['CPython ast', 'bbverif.absint (abstract semantics of the Python subset used by asm.py, models of the standard library functions it calls)']
-    rep.not_decided = ['exceptions Python raises implicitly on malformed arity or syntax (tuple unpacking, tokens[3] IndexError, KeyError of a table lookup, '
+    rep.not_decided = ['exceptions Python raises implicitly on malformed arity or syntax (tuple unpacking, tokens[3] IndexError, KeyError of a table lookup keyed by a value read back from an item field (a lookup keyed by a raw user token is judged), '
                        'UnicodeDecodeError on a trailing backslash, ZeroDivisionError for align 0): where the code has a handler for them its body is '
                        'analysed, elsewhere they are not judged',
                        'duplicate label definitions are not refused at all, so the premise "when a program is refused" is never met for that class',
@@ -151,7 +291,31 @@ def run(repo, tier):
     for anchor in (LINE, ERROR):
         if anchor not in it.classes:
             raise AnalysisError('anchor vanished: class {}'.format(anchor))
-    results = it.run(ENTRY, entry_args)
+    try:
+        results = it.run(ENTRY, entry_args)
+    except AnalysisError as stopped:
+        # the interpretation stopped at code it does not understand.  What it had established by then still stands: an error /
+        # item that was built from understood code without the Line of its source line is a violation, not a no-verdict
+        holds = {(id(ev['node']), ev['attr']) for ev in it.ev_store.values() if any(is_line(a) for a in ev['val'])}
+        if any(id(ev['site']) in it.approx_sites and (id(ev['node']), ev['attr']) in holds and any(not is_line(a) for a in ev['val']) for ev in it.ev_store.values()):
+            raise           # values of unknown shape were stored into Line-holding attributes: what is read back proves nothing
+        for ev in sorted(it.ev_store.values(), key=lambda e: (getattr(e['site'], 'lineno', 0), e['attr'])):
+            if (id(ev['node']), ev['attr']) not in holds:
+                continue
+            bad = sorted({a for a in ev['val'] if not is_line(a)}, key=str)
+            if not bad or not all(a == NONE or a[0] in ('str', 'c', 'tok') for a in bad) or overwritten_after_construction(it, ev):
+                continue
+            is_err = any(it.is_exception_class(c) for c in ev['cls'])
+            names = '/'.join(sorted(ev['cls']))
+            what = ', '.join(sorted({'None' if a == NONE else 'text' for a in bad}))
+            msg = ('this assembler error does not carry the Line of the faulty source line (its `{}` may be: {})' if is_err else
+                   '{} is built without the Line of the source line it derives from (its `{{}}` may be: {{}})'.format(names)).format(ev['attr'], what)
+            rep.fail(Finding('R15.2.line' if is_err else 'R15.5.items', ev['qual'], ev['site'], msg, line=getattr(ev['site'], 'lineno', None)),
+                     instance='{} {} {}'.format(ev['qual'], names, unparse(ev['site'])[:60]))
+        if not rep.findings:
+            raise
+        rep.analysed['interpretation stopped'] = str(stopped)[:200]
+        return rep
     rep.count('functions reached from assemble', len(it.reached))
     for (ret, excs), arm in zip(results, ('compress=False', 'compress=True')):
         if not ret:
@@ -178,6 +342,10 @@ def run(repo, tier):
             # reachable is not known
             undecided.append('{}:{} whether `{}` is reachable depends on a type test the analysis does not follow'.format(
                 q_origin, rec.origin.lineno, unparse(rec.origin)[:50]))
+            continue
+        again = revisits_processed_element(it, rec, chain)
+        if again:
+            undecided.append(again)
             continue
         entry = chain[1][0] if len(chain) > 1 else chain[0][0]
         text = chain_text(rec)
@@ -219,12 +387,12 @@ def run(repo, tier):
     line_nodes = set()
     for ev in it.ev_store.values():
         if any(is_line(a) for a in ev['val']):
-            line_nodes.add(id(ev['node']))
+            line_nodes.add((id(ev['node']), ev['attr']))
     n_checked = n_ae = 0
     polluted = False
     line_findings = []
     for ev in sorted(it.ev_store.values(), key=lambda e: (getattr(e['site'], 'lineno', 0), e['attr'])):
-        if id(ev['node']) not in line_nodes:
+        if (id(ev['node']), ev['attr']) not in line_nodes:
             continue
         is_err = any(it.is_exception_class(c) for c in ev['cls'])
         n_checked += 1
@@ -236,6 +404,9 @@ def run(repo, tier):
         if bad and id(site) in it.approx_sites:
             undecided.append('{}:{} the arguments of {} come from a * / ** expansion whose shape the analysis does not know'.format(ev['qual'], getattr(site, 'lineno', '?'), unparse(site)[:50]))
             polluted = True
+            continue
+        if bad and overwritten_after_construction(it, ev):
+            rep.ok(rule, '{}: {} gets its `{}` right after it is built ({})'.format(ev['qual'], names, ev['attr'], unparse(site)[:60]), nontrivial=False)
             continue
         if bad:
             what = ', '.join(sorted({'None' if a == NONE else ('text' if a[0] in ('str', 'c', 'tok') else a[0]) for a in bad}))
@@ -269,12 +440,22 @@ def run(repo, tier):
                     vals[i] = args.kw[pn]
             files, numbers, texts = vals[0], vals[1], vals[2]
             origins_ = set()
-            plain = False
+            plain = moved = False
             for a in texts:
                 if a[0] == 'str' and isinstance(a[2], tuple) and a[2][0] == 'elem':
                     origins_.add(a[2][1])
+                    moved = moved or len(a[2]) > 2      # taken from a filtered / shifted copy of the lines
                 else:
                     plain = True
+            c_, iq_ = it.find_method(LINE, '__init__')
+            sym_f = args.syms.get(0, args.syms.get(pnames[0] if pnames else None))
+            sym_n0 = args.syms.get(1, args.syms.get(pnames[1] if len(pnames) > 1 else None))
+            lfields_, lparams_ = init_param_fields(it, LINE)
+            if isinstance(sym_f, tuple) and isinstance(sym_n0, tuple) and sym_f[0] == 'fld' and sym_n0[0] == 'fld' and sym_f[1] == sym_n0[1] \
+                    and len(lparams_) > 1 and lparams_[0] in lfields_.get(sym_f[2], ()) and lparams_[1] in lfields_.get(sym_n0[2], ()):
+                # a Line rebuilt from the file and number of one existing Line (its text may be rewritten): same place
+                rep.ok('R15.5.origin', '{}: Line rebuilt with the file and number of the line it replaces'.format(q), nontrivial=False)
+                continue
             if plain or not origins_:
                 one_line = all(a[0] == 'c' and a[2] == 1 for a in numbers) and all(a[0] == 'c' for a in files)
                 if one_line and not origins_:
@@ -300,7 +481,11 @@ def run(repo, tier):
                     elif a[1] != 1:
                         wrong = 'the line number is the index counted from {} (must be 1-based)'.format(a[1])
                     elif set(x for x in (a[2] or ())) != origins_:
-                        wrong = 'the line number counts the elements of another sequence than the physical lines the text is taken from'
+                        if not moved and (not a[2] or any(mentions_origin(x, origins_) for x in a[2])):
+                            # a sequence made from the source lines in a way that is not followed (a copy would be fine)
+                            undecided.append('{}:{} which sequence the line number counts is not established'.format(q, node.lineno))
+                        else:
+                            wrong = 'the line number counts the elements of another sequence than the physical lines the text is taken from'
                 else:
                     undecided.append('{}:{} the line number is not an enumerate() index'.format(q, node.lineno))
             allowed = set()
@@ -331,14 +516,17 @@ def run(repo, tier):
     # ---- R15.7 -----------------------------------------------------------------------------------------------------------------
     for (hid, oid), (q, h, new, old) in sorted(it.ev_relabel.items(), key=lambda t: (t[1][0], getattr(t[1][2].origin, 'lineno', 0))):
         oq = old.chain[-1][0]
+        if new.atom[2] in ('*', '?') or old.atom[2] in ('*', '?'):
+            undecided.append('{}:{} whether this handler keeps the line of the AssemblerError it catches is not established'.format(q, getattr(new.origin, 'lineno', '?')))
+            continue
         rep.fail(Finding('R15.7.relabel', q, new.origin,
                          'this handler also catches AssemblerError (e.g. the one raised at {}:{}) and replaces it by a new error carrying another line: a fault in an included '
                          'file / deeper construct is reported at the wrong file and line'.format(oq, getattr(old.origin, 'lineno', '?')),
                          line=getattr(new.origin, 'lineno', None)), instance='{} handler at line of {}'.format(q, unparse(h.type) if getattr(h, 'type', None) is not None else 'bare'))
-    if not it.ev_relabel:
+    if not any(new.atom[2] not in ('*', '?') and old.atom[2] not in ('*', '?') for (_, _, new, old) in it.ev_relabel.values()):
         rep.ok('R15.7.relabel', 'no handler re-labels an error that already carries its line')
     # ---- R15.6 rendering --------------------------------------------------------------------------------------------------------
-    err_fields = {ev['attr'] for ev in it.ev_store.values() if ERROR in ev['cls'] and id(ev['node']) in line_nodes}
+    err_fields = {ev['attr'] for ev in it.ev_store.values() if ERROR in ev['cls'] and (id(ev['node']), ev['attr']) in line_nodes}
     ae = it.classes[ERROR]
     ln = it.classes[LINE]
     keeps = bool(err_fields)
@@ -348,7 +536,17 @@ def run(repo, tier):
     shown, opaque = returned_self_attrs(it, ERROR, it.funcs[sq]) if sq else (set(), False)
     fields, params = init_param_fields(it, ERROR) or ({}, [])
     msg_fields = {f for f, ps in fields.items() if params and params[0] in ps}
-    s_ok = sq is not None and bool(shown & err_fields) and (not msg_fields or bool(shown & msg_fields))
+    # the property is about the line: how the message is spelled out (self.message, self.args[0], super().__str__()) is not judged
+    s_ok = sq is not None and bool(shown & err_fields)
+    if sq is None:
+        # no __str__ of its own: Exception.__str__ shows the one argument handed to the base constructor
+        shown_params = base_init_text(it, ERROR)
+        line_params = {p_ for f, ps in fields.items() if f in err_fields for p_ in ps}
+        if shown_params is None:
+            undecided.append('{} has no __str__ and what it hands to Exception.__init__ is not understood'.format(ERROR))
+            s_ok = True
+        else:
+            s_ok = bool(shown_params & line_params)
     if not s_ok and opaque:
         undecided.append('{}.__str__ hands self to code that is not followed: what it shows is not established'.format(ERROR))
         s_ok = True
